@@ -187,6 +187,15 @@ def run(rep: Report, prog: Program, tier: str) -> None:
                 lost = e - got_r
                 want = 0 if e == 0 or lost <= 0 else (lost << 8) // e
                 want_first = (3 << 8) // 12
+                # third interval: 4 expected, 2 received - whatever the second interval looked like, its packets are not counted again
+                top3 = top + (e if r else 0)
+                _feed(ss, top3 + 2)
+                _feed(ss, top3 + 4)
+                third = _fraction(ss)
+                if third != 128 and got == want and first == want_first:
+                    rep.fail(mk_finding(prog, PROP, "C18-FRACTION", fl, fl.node, f"after an interval with {cell} the next interval (4 expected, 2 received) reports fraction_lost {third}, RFC 3550 A.3 gives 128: "
+                                        "the counters of the previous report were not carried forward", construct=f"fraction_lost interval after {cell}"))
+                    continue
                 if first != want_first:
                     rep.fail(mk_finding(prog, PROP, "C18-FRACTION", fl, fl.node, f"first interval across a sequence wrap (12 expected, 9 received): fraction_lost gives {first}, RFC 3550 A.3 gives {want_first}",
                                         construct="fraction_lost first interval"))
